@@ -39,6 +39,7 @@ void generate(sim::Rng &r, uint64_t seed, const std::string &tier, sim::Plan &p)
   p.cfg["nloops"] = nl;
   p.cfg["backend"] = r.below(2);
   for (int s = 0; s < NSG; ++s) p.cfg["base" + std::to_string(s)] = r.range(0, 3);   // 0 handler, 1 siginfo handler, 2 SIG_IGN, 3 SIG_DFL
+  for (int s = 0; s < NSG; ++s) p.cfg["bflag" + std::to_string(s)] = r.chance(500) ? 0 : r.range(1, 5);   // flags of a baseline handler: none, RESTART, RESETHAND, NODEFER, RESETHAND|NODEFER, RESTART|RESETHAND
   p.cfg["starve_max"] = nl;
   p.cfg["pct_horizon"] = 400;
   long nev = r.range(1, MAXEV);
@@ -78,6 +79,7 @@ struct World {
   Ev ev[MAXEV]; int nev = 0;
   struct sigaction before[NSG];
   long base[NSG];
+  bool resethand[NSG];
 };
 World W;
 
@@ -101,9 +103,14 @@ bool any_subscriber(int sidx) {
 
 void check_dispositions(const char *when) {
   for (int s = 0; s < NSG; ++s) {
-    if (any_subscriber(s)) continue;
     struct sigaction cur;
     sigaction(SIGS[s], nullptr, &cur);
+    if (any_subscriber(s)) {
+      // while somebody is subscribed the process must have a handler for the signal, whatever flags the previous handler had
+      if (!(cur.sa_flags & SA_SIGINFO) && (cur.sa_handler == SIG_DFL || cur.sa_handler == SIG_IGN))
+        sim::violation("C04/handler-lost-while-subscribed", sim::fmt("%s: signal #%d has an enabled subscriber but the process disposition is %s", when, s, cur.sa_handler == SIG_DFL ? "SIG_DFL" : "SIG_IGN"));
+      continue;
+    }
     if (!same_disposition(cur, W.before[s]))
       sim::violation("C04/disposition-not-restored", sim::fmt("%s: no enabled subscriber is left for signal #%d, but its disposition differs from what was installed before the first subscription (baseline kind %ld)", when, s, W.base[s]));
   }
@@ -145,6 +152,13 @@ void execute(const sim::Plan &plan) {
     else if (W.base[s] == 2) sa.sa_handler = SIG_IGN;
     else sa.sa_handler = SIG_DFL;
     if (W.base[s] <= 1 && s == 1) { sa.sa_flags |= SA_RESTART; sigaddset(&sa.sa_mask, SIGHUP); }   // some variety in flags and mask
+    W.resethand[s] = false;
+    if (W.base[s] <= 1) {
+      static const int BF[] = {0, SA_RESTART, (int)SA_RESETHAND, SA_NODEFER, (int)SA_RESETHAND | SA_NODEFER, SA_RESTART | (int)SA_RESETHAND};
+      int f = BF[((plan.get(("bflag" + std::to_string(s)).c_str(), 0) % 6) + 6) % 6];
+      sa.sa_flags |= f;
+      W.resethand[s] = (f & (int)SA_RESETHAND) != 0;
+    }
     sigaction(SIGS[s], &sa, nullptr);
     sigaction(SIGS[s], nullptr, &W.before[s]);
   }
@@ -309,6 +323,7 @@ void execute(const sim::Plan &plan) {
       }
       bool subs = any_subscriber(s);
       if (W.base[s] == 3 && !subs) continue;      // default disposition and nobody subscribed: the signal would terminate the process
+      if (W.resethand[s] && !subs) continue;      // the baseline handler resets itself on its first own delivery: not tbox's doing, keep it out of the picture
       std::vector<int> expect;
       for (int e = 0; e < W.nev; ++e) if (W.ev[e].exists && W.ev[e].enabled && (W.ev[e].mask & (1 << s))) expect.push_back(e);
       uint64_t mark = sim::hist(H_RAISE, s, (long)expect.size());
